@@ -1,9 +1,63 @@
-(** C19 — MFS behaves as a hierarchical filesystem and persists what it shows. *)
+(** C19 — MFS behaves as a hierarchical filesystem and persists what it shows.
+    ONLY the property theorems, each closed by [exact] of a lemma of proofs/P_C19.v.
+    Model: model/M_C19.v — specification layer = immutable trees ([t_step]);
+    mechanism layer = MFS objects with entry caches, cacheSync and propagation to the
+    root, transcribed from mfs/{ops,dir,file,fd,root}.go ([m_step]); [abs] = the tree
+    a mechanism state shows.  [flags_off] = both defects of the current Mv repaired. *)
 From Coq Require Import List ZArith Bool NArith.
-From V Require Import lib.Verdict model.M_C19.
+From V Require Import lib.Verdict model.M_C19 proofs.P_C19.
 Import ListNotations.
 Open Scope Z_scope.
 
+(** For EVERY sequence of mkdir(-p, flush) / create / write / truncate / mv / rm / chmod /
+    touch / flush / stat / list / read on a fresh root, the mechanism returns exactly what the
+    tree specification returns, and shows exactly the specification's tree afterwards. *)
+Theorem C19_refines_tree : forall ops,
+  snd (m_run flags_off (load newdir) ops) = snd (t_run newdir ops) /\
+  abs (fst (m_run flags_off (load newdir) ops)) = fst (t_run newdir ops).
+Proof. exact refines_tree. Qed.
+Print Assumptions C19_refines_tree.
+
+(** The same from every mechanism state satisfying the invariant [wf] (unique names,
+    cached names are linked names, at every level), which every operation preserves. *)
+Theorem C19_refines_tree_from : forall o ops, wf o ->
+  snd (m_run flags_off o ops) = snd (t_run (abs o) ops) /\
+  abs (fst (m_run flags_off o ops)) = fst (t_run (abs o) ops) /\
+  wf (fst (m_run flags_off o ops)).
+Proof. exact refines_tree_from. Qed.
+Print Assumptions C19_refines_tree_from.
+
+(** One operation: results equal, shown tree follows the specification, invariant kept. *)
+Theorem C19_step_refines : forall o a, wf o ->
+  wf (fst (m_step flags_off o a)) /\
+  abs (fst (m_step flags_off o a)) = fst (t_step (abs o) a) /\
+  snd (m_step flags_off o a) = snd (t_step (abs o) a).
+Proof. exact step_refines. Qed.
+Print Assumptions C19_step_refines.
+
+(** After FlushPath("/") the root's UnixFS DAG (a value: the whole DAG below it) IS the tree
+    MFS showed before the flush; the flush returns it and does not change what is shown. *)
+Theorem C19_flush_persists : forall o, wf o ->
+  let r := m_step flags_off o (OFlush []) in
+  snd r = RNode (abs o) /\ persnode (fst r) = abs o /\ abs (fst r) = abs o.
+Proof. exact flush_persists. Qed.
+Print Assumptions C19_flush_persists.
+
+(** FlushPath(p) returns the DAG of exactly the subtree the specification has at [p]. *)
+Theorem C19_flush_returns_subtree : forall o p n, wf o -> tget p (abs o) = Some n ->
+  snd (m_step flags_off o (OFlush p)) = RNode n.
+Proof. exact flush_returns_subtree. Qed.
+Print Assumptions C19_flush_returns_subtree.
+
+(** cacheSync (GetNode): afterwards the object's UnixFS node is what the object shows. *)
+Theorem C19_sync : forall o, wf o ->
+  abs (sync o) = abs o /\ persnode (sync o) = abs o /\ wf (sync o).
+Proof. exact sync_spec. Qed.
+Print Assumptions C19_sync.
+
+(** The two defects of the current code: with the flag ON (what mfs.Mv does today) the
+    mechanism deviates from the specification; the witnesses are replayed on the real
+    code by the harness on every run (findings C19-1, C19-2). *)
 Definition w_name : list op :=
   [OMkdir [0; 2] true false; OMkdir [1; 2] true false; OCreate [0; 2; 4];
    OMv [0; 2; 4] [1; 2; 4] false; OList [0; 2]].
@@ -17,3 +71,18 @@ Theorem C19_mv_self_refuted :
   exists ops, snd (m_run flags_self (load newdir) ops) <> snd (t_run newdir ops).
 Proof. exists w_self. vm_compute. intro H. discriminate H. Qed.
 Print Assumptions C19_mv_self_refuted.
+
+(** Non-vacuity: the invariant holds initially, and a history with unsynced writes,
+    metadata, a move between same-named directories and sub-path flushes. *)
+Example C19_wf_root : wf (load newdir).
+Proof. exact wf_root. Qed.
+Example C19_example :
+  let ops := [OMkdir [0; 2] true false; OMkdir [1; 2] true true; OCreate [0; 2; 4];
+              OWrite [0; 2; 4] [104; 105] false; OTouch [0; 2; 4] 1000; OChmod [0] 488;
+              OMv [0; 2; 4] [1; 2; 4] false; OList [0; 2]; ORead [1; 2; 4]; OFlush [1]; OFlush []] in
+  snd (t_run newdir ops) =
+    [ROk; ROk; ROk; ROk; ROk; ROk; ROk; RList []; RData [104; 105];
+     RNode (NDir [(2, NDir [(4, NFile [104; 105] 0 1000)] 0 0)] 0 0);
+     RNode (NDir [(0, NDir [(2, NDir [] 0 0)] 488 0);
+                  (1, NDir [(2, NDir [(4, NFile [104; 105] 0 1000)] 0 0)] 0 0)] 0 0)].
+Proof. vm_compute. reflexivity. Qed.
